@@ -35,6 +35,27 @@ type fixture struct {
 	opts PluginOpts
 
 	podChanged bool // the last request's pod differed after the call
+
+	// container names this pair of processes has been asked about: name -> number of distinct
+	// names seen when it was last asked about
+	seenAt   map[string]int
+	distinct int
+	recurred bool // the last request's name came back after >= 1024 other distinct names
+	probes   int  // health probes sent
+}
+
+// noteName records a request for container name n.
+func (f *fixture) noteName(n string) {
+	if f.seenAt == nil {
+		f.seenAt = map[string]int{}
+	}
+	prev, ok := f.seenAt[n]
+	if !ok {
+		f.distinct++
+		ev.Get("C20").AddExtra("distinct_container_names_sent", 1)
+	}
+	f.recurred = ok && f.distinct-prev >= 1024
+	f.seenAt[n] = f.distinct
 }
 
 // one pair of plugin processes per option set in use, started on demand
@@ -174,6 +195,7 @@ func (f *fixture) create(ctr string, ann map[string]string, rq *ReqCtx) (*api.Cr
 		Container: &api.Container{Id: "ctr0", PodSandboxId: "pod0", Name: ctr},
 	}
 	rq.apply(req)
+	f.noteName(ctr)
 	before := proto.Clone(req.Pod)
 	rsp, err := f.a.CreateContainer(context.Background(), req)
 	// The plugins only read the request. They run out of process, so all that can be observed
@@ -198,12 +220,17 @@ func (f *fixture) healthy() error {
 		{"ulimit-adjuster", "ulimits.nri.containerd.io/container.hc", "- type: RLIMIT_NOFILE\n  hard: 4096\n  soft: 1024\n", "x",
 			func(a *api.ContainerAdjustment) int { return len(a.GetRlimits()) }},
 	}
+	// a container name the processes have never been asked about: the probe must not depend
+	// on what the plugins remember
+	f.probes++
+	hc := fmt.Sprintf("hc-%d-%d", os.Getpid(), f.probes)
 	for _, p := range probes {
-		rsp, err := f.create("hc", map[string]string{p.key: p.good}, nil)
+		p.key = strings.Replace(p.key, "container.hc", "container."+hc, 1)
+		rsp, err := f.create(hc, map[string]string{p.key: p.good}, nil)
 		if err != nil || p.n(rsp.GetAdjust()) > 0 {
 			continue
 		}
-		if _, err := f.create("hc", map[string]string{p.key: p.bad}, nil); err != nil {
+		if _, err := f.create(hc, map[string]string{p.key: p.bad}, nil); err != nil {
 			continue
 		}
 		return fmt.Errorf("%s does not answer (neither a contribution nor an error)", p.name)
@@ -622,6 +649,9 @@ func judge(f *fixture, c C20Case) ev.Outcome {
 	if f.podChanged {
 		o.Lenient = append(o.Lenient, "request_pod_changed_by_call")
 	}
+	if f.recurred {
+		o.Classes = append(o.Classes, "recur:name_after_1024_other_names")
+	}
 	switch {
 	case c.Opts == PluginOpts{}:
 		o.Classes = append(o.Classes, "opts:default")
@@ -1019,6 +1049,7 @@ func TestExh_C20(t *testing.T) {
 	r.SetExtra("separator_sweep_requests", sweepSeparators(t, r))
 	r.SetExtra("combination_sweep_requests", sweepCombinations(t, r))
 	r.SetExtra("repetition_sweep_cases", sweepRepetition(t, r))
+	r.SetExtra("many_names_sweep_requests", sweepManyNames(t, r))
 	r.SetExtra("exhaustive", false) // only the key-presence sub-domain is enumerated
 	r.SetExtra("exhaustive_subdomain", "per plugin option set (6) and key family (4), all 32 presence combinations of {container key for this container, for a prefix-named container, for an extension-named container, pod key, bare key}")
 }
@@ -1474,6 +1505,98 @@ func sweepRepetition(t *testing.T, r *ev.Recorder) int {
 		run(Ann{Family: fam, Style: "block", Ill: "broken_syntax"}, "- \"unterminated\n")
 		run(Ann{Family: fam, Style: "flow", Ill: "broken_syntax"}, "[{type: a, path: b}")
 		run(Ann{Family: fam, Style: "block", Ill: "broken_syntax"}, "- type: a: b: c\n")
+	}
+	return n
+}
+
+// sweepManyNames: the number of distinct container names one pair of plugin processes is
+// asked about. A few names are served first with container-scoped annotations of every
+// family (one of them with a malformed one), then 1100 requests for fresh, distinct names
+// follow (each with its own container-scoped device annotation, every tenth with rlimits), then
+// the first names come back — in a pod that also annotates some of the fresh names — and once
+// more for good measure. Every request is judged by the oracle; the plugins must treat a name
+// the same however many other names they have seen since.
+func sweepManyNames(t *testing.T, r *ev.Recorder) int {
+	n := 0
+	text := func(a *Ann) { a.Text = (&renderer{ch: fixedChooser{}, style: a.Style}).render(a.node()) }
+	run := func(c C20Case, class string) {
+		raw := ev.Snapshot(c)
+		r.Journal(raw)
+		o := runC20(c)
+		r.ClearJournal()
+		o.Classes = append(o.Classes, "sweep:many_names", class)
+		r.Record(raw, o)
+		if o.Fail != "" {
+			t.Fatalf("C20: %s", o.Fail)
+		}
+		n++
+	}
+	own := func(name string, i int, others []string) C20Case {
+		c := C20Case{Ctr: name}
+		add := func(a Ann) { text(&a); c.Anns = append(c.Anns, a) }
+		tag := fmt.Sprintf("%s-own", name)
+		add(Ann{Family: famDev, Scope: scopeCtr, Target: name, Style: "block", Devices: []Dev{{Path: "/dev/" + tag, Type: "c", Major: int64(30 + i), Minor: 1}}})
+		add(Ann{Family: famCDI, Scope: scopeCtr, Target: name, Style: "flow", CDI: []string{"vendor.com/device=" + tag}})
+		add(Ann{Family: famMnt, Scope: scopeCtr, Target: name, Style: "json", Mounts: []Mnt{{Source: "/src/" + tag, Destination: "/mnt/" + tag, Type: "bind", Options: []string{"ro"}}}})
+		add(Ann{Family: famRlim, Scope: scopeCtr, Target: name, Style: "block", Rlimits: []Rlim{{Type: rlimitNames[i%len(rlimitNames)], Hard: u64p(uint64(500 + i)), Soft: u64p(uint64(i))}}})
+		// what the container must NOT get: the pod-scoped and bare ones, and other containers'
+		add(Ann{Family: famDev, Scope: scopePod, Style: "block", Devices: []Dev{{Path: "/dev/pod-scoped", Type: "c", Major: 2, Minor: 2}}})
+		add(Ann{Family: famCDI, Scope: scopeBare, Style: "block", CDI: []string{"vendor.com/device=bare"}})
+		add(Ann{Family: famMnt, Scope: scopePod, Style: "block", Mounts: []Mnt{{Source: "/pod", Destination: "/mnt/pod-scoped", Type: "bind"}}})
+		for j, o := range others {
+			add(Ann{Family: famDev, Scope: scopeCtr, Target: o, Style: "flow", Devices: []Dev{{Path: "/dev/of-" + o, Type: "b", Major: 7, Minor: int64(j)}}})
+			if j%4 == 0 {
+				add(Ann{Family: famRlim, Scope: scopeCtr, Target: o, Style: "flow", Rlimits: []Rlim{{Type: "RLIMIT_NPROC", Hard: u64p(7), Soft: u64p(7)}}})
+				add(Ann{Family: famMnt, Scope: scopeCtr, Target: o, Style: "flow", Mounts: []Mnt{{Source: "/of", Destination: "/mnt/of-" + o, Type: "bind"}}})
+			}
+		}
+		return c
+	}
+	malformed := func(name string) C20Case {
+		c := C20Case{Ctr: name}
+		c.Anns = []Ann{
+			{Family: famMnt, Scope: scopeCtr, Target: name, Style: "block", Ill: "scalar_options", Text: "- source: /a\n  destination: /mnt/a\n  type: bind\n  options: ro\n"},
+			{Family: famMnt, Scope: scopePod, Style: "block", Mounts: []Mnt{{Source: "/pod", Destination: "/mnt/pod-scoped", Type: "bind"}}},
+		}
+		text(&c.Anns[1])
+		return c
+	}
+	malformedRlim := func(name string) C20Case {
+		return C20Case{Ctr: name, Anns: []Ann{{Family: famRlim, Scope: scopeCtr, Target: name, Style: "block", Ill: "hard_lt_soft", Text: "- type: nofile\n  hard: 1\n  soft: 2\n"}}}
+	}
+	fresh := func(i int) string { return fmt.Sprintf("fresh-%04d", i) }
+	const nFresh = 1100
+	first := []string{"early-a", "early-b", "early-c", "early-d"}
+	// the fresh names that come to sit where the early ones sat, if slots of 1024 names are
+	// reused in order (and a few around them)
+	var neighbours []string
+	for i := 1000; i < 1048; i++ {
+		neighbours = append(neighbours, fresh(i))
+	}
+	for i, name := range first {
+		run(own(name, i, nil), "many_names:first_visit")
+	}
+	run(malformed("early-bad"), "many_names:first_visit")
+	run(malformedRlim("early-bad-rlim"), "many_names:first_visit")
+	for i := 0; i < nFresh; i++ {
+		name := fresh(i)
+		c := C20Case{Ctr: name}
+		a := Ann{Family: famDev, Scope: scopeCtr, Target: name, Style: "flow", Devices: []Dev{{Path: "/dev/of-" + name, Type: "b", Major: 7, Minor: int64(i)}}}
+		text(&a)
+		c.Anns = append(c.Anns, a)
+		if i%10 == 0 {
+			b := Ann{Family: famRlim, Scope: scopeCtr, Target: name, Style: "flow", Rlimits: []Rlim{{Type: rlimitNames[i%len(rlimitNames)], Hard: u64p(uint64(i)), Soft: u64p(uint64(i / 2))}}}
+			text(&b)
+			c.Anns = append(c.Anns, b)
+		}
+		run(c, "many_names:fresh_name")
+	}
+	for round := 0; round < 2; round++ {
+		for i, name := range first {
+			run(own(name, i, neighbours), "many_names:return_visit")
+		}
+		run(malformed("early-bad"), "many_names:return_visit")
+		run(malformedRlim("early-bad-rlim"), "many_names:return_visit")
 	}
 	return n
 }
